@@ -70,5 +70,5 @@ def run(rep, tier):
         c15.r15g(rep, prog)
     if nb == 0:
         rep.analysis_broken('parmcb::is_bfs_reachable is not instantiated (anchor vanished)')
-    c15.r02h_bfs(rep)
+    c15.r02h_bfs(rep, names=('is_bfs_reachable', 'dijkstra'))      # the closing paths come from parmcb::dijkstra on the spanner
     rep.assume('the numeric (2k-1) bound follows from the premises by the standard greedy-spanner argument; that argument is not mechanised here')
